@@ -223,6 +223,31 @@ def _sig_external_corruption(c):
             return True
     return False
 
+def _sig_alloc_cancelled(c):
+    # K-C04-h: files were lost while stopped; a start's allocation (which re-creates them) is cancelled by a
+    # stop before its result is handled; the next allocation finds every file present and trusts the resume data
+    if c.get('kind') != 401:
+        return False
+    try:
+        np_, nf, evs = _life_events(c)
+    except Exception:
+        return False
+    lost = started = cancelled = False
+    for ev, args in evs:
+        if ev == 8 and 0 in args[:nf]:
+            lost, cancelled = True, False
+        elif ev == 1 and lost:
+            started = True
+        elif ev == 2 and started:
+            cancelled = True
+        elif ev == 4:
+            if cancelled and args[1] == 0:
+                return True
+            started = False
+            if not cancelled:
+                lost = False
+    return False
+
 def _sig_alloc_window(c):
     # K-C05-a: crash between the allocator re-creating lost files and the loop handling its result
     if c.get('kind') != 501:
@@ -256,6 +281,6 @@ def _sig_c20(pairs):
         return c.get('kind') == 2001 and len(inp) >= 3 and inp[0] == 1 and (inp[1], inp[2]) in hs
     return sig
 
-SIGNATURES = {'K-C04-g': _sig_external_corruption, 'K-C05-a': _sig_alloc_window}
+SIGNATURES = {'K-C04-g': _sig_external_corruption, 'K-C04-h': _sig_alloc_cancelled, 'K-C05-a': _sig_alloc_window}
 for _k, _v in C20_KNOWN.items():
     SIGNATURES[_k] = _sig_c20(_v)
